@@ -589,6 +589,31 @@ func main() {
 		}
 		emit("Definition processor_exit_calls_stop : bool := %v.", ok)
 	}
+	// order of the two topic-store operations of a publish (retain the message, look the subscribers up) and of a
+	// subscription (register, read the retained messages)
+	{
+		callPos := func(fd *ast.FuncDecl, suffix string) token.Pos {
+			pos := token.NoPos
+			ast.Inspect(fd.Body, func(n ast.Node) bool {
+				if ce, ok := n.(*ast.CallExpr); ok && pos == token.NoPos && strings.HasSuffix(src(ce.Fun), suffix) {
+					pos = ce.Pos()
+				}
+				return true
+			})
+			if pos == token.NoPos {
+				fail("%s: no call of %s", fd.Name.Name, suffix)
+			}
+			return pos
+		}
+		onp := svc.fn("process.go", "service", "onPublish")
+		spub := svc.fn("server.go", "Server", "Publish")
+		psub := svc.fn("process.go", "service", "processSubscribe")
+		emit("(* onPublish and Server.Publish store a retained message BEFORE they look the subscribers up *)")
+		emit("Definition publish_retains_before_lookup : bool := %v.",
+			callPos(onp, "topicsMgr.Retain") < callPos(onp, "topicsMgr.Subscribers") && callPos(spub, "topicsMgr.Retain") < callPos(spub, "topicsMgr.Subscribers"))
+		emit("(* processSubscribe registers the subscription BEFORE it reads the retained messages *)")
+		emit("Definition subscribe_registers_before_retained : bool := %v.", callPos(psub, "topicsMgr.Subscribe") < callPos(psub, "topicsMgr.Retained"))
+	}
 	// processAcked switch on ackmsg.State
 	{
 		fd := svc.fn("process.go", "service", "processAcked")
